@@ -318,10 +318,14 @@ MANIFEST = dict(
     technique="Coq proof (N-thread / any-library transition system of _embedding.h, inductive invariants over all "
               "schedules; refutation witness for the two-library clause) + scenario correspondence on real embedded "
               "libraries with a semaphore-driven driver",
-    text="Proof, for all schedules, thread counts, libraries and recursion depths: Py_InitializeEx at most once; each "
+    text="Model hypotheses: sequentially consistent memory (the write/read barrier pair is not modelled), atomic CAS, "
+         "pthread recursive mutex as specified, Py_InitializeEx / module init / init code as single steps. Under these, "
+         "proof for all schedules, thread counts, libraries and recursion depths: Py_InitializeEx at most once; each "
          "library's init code and mutex creation at most once; no thread but the initializer runs an extern function "
          "before the library's init finished; after a failed init the state is final, the function pointer stays NULL "
-         "and every call returns the zeroed result; with one library some thread can always move (no deadlock). The "
+         "and every call returns the zeroed result within 18 own effective steps (ranking function); with one library "
+         "some thread can always move (no deadlock) and every effective step lowers the rank of the call or starts/ends a "
+         "nested call, i.e. termination up to scheduler fairness and terminating user code. The "
          "no-deadlock clause is refuted for two libraries whose init codes call each other (witness schedule, replayed "
          "on the real code).",
     note="Partial: memory model, pthread mutex and CPython are hypotheses of the model; real schedules are a sample. "
